@@ -22,7 +22,9 @@ EXEMPT = {'ldexp', 'frexp', 'mpmathify', 'convert', 're', 'im', 'mag', 'nint_dis
           'lu', 'qr', 'LU_decomp', 'L_solve', 'U_solve', 'lu_solve', 'qr_solve', 'cholesky', 'cholesky_solve', 'inverse', 'det', 'improve_solution',
           'expm', 'logm', 'sqrtm', 'powm', 'cosm', 'sinm', 'eig', 'eigsy', 'eighe', 'eigh', 'svd', 'svd_r', 'svd_c', 'schur', 'hessenberg', 'gauss_quadrature',
           'hilbert', 'odefun', 'pade', 'taylor', 'diffs', 'fourier', 'fourierval', 'pslq', 'findpoly', 'identify', 'unitroots', 'polyroots', 'cyclotomic',
-          'absmin', 'absmax', 'fabs' if False else '_', 'sign'}
+          'absmin', 'absmax', 'sign', 'conj', 'conjugate', 'findroot', 'invertlaplace', 'invlaptalbot', 'invlapstehfest', 'invlapdehoog', 'sumem', 'sumap',
+          'square_exp_arg', 'fadd', 'fsub', 'fmul', 'fdiv', 'nsum', 'nprod', 'limit', 'quad', 'quadgl', 'quadts', 'quadosc', 'quadsubdiv', 'diff', 'diffun', 'differint',
+          'multiplicity', 'levin', 'cohen_alt'}
 # EXEMPT contains the operations the property lists as exact (ldexp, frexp, mpmathify/convert, component access re/im) plus entry points that are
 # not "arithmetic operators, constructors, unary ops or elementary/special functions": predicates, string output, array constructors/containers,
 # linear algebra and calculus drivers, polynomial utilities.  They are still executed (C11) but their bit lengths are not constrained by C10.
@@ -101,7 +103,9 @@ def t_funcs(task):
                 if 'lambda' in e['args'] and name not in ('quad', 'quadgl', 'quadts', 'diff', 'nsum', 'nprod', 'limit', 'findroot', 'invertlaplace', 'sumem'):
                     continue
                 for p in precs:
-                    for kw in (None, {'prec': 30}, {'dps': 5}):
+                    # prec=/dps= keywords are a feature of the libmp-wrapped functions only (plain functions in the namespace)
+                    kws = (None, {'prec': 30}, {'dps': 5}) if type(getattr(mp, name)).__name__ == 'function' else (None,)
+                    for kw in kws:
                         try:
                             r = call_long(mp, ns, name, e['args'], p, kw)
                         except core.TimeoutHit:
@@ -119,7 +123,7 @@ def t_funcs(task):
                             acc.nontrivial += 1
                         if bad:
                             acc.violation(['fn', name, e['args'], p, str(kw)], '%s%s at prec %d%s returned a %d-bit mantissa (limit %d)' % (name, e['args'], p, '' if kw is None else ' with %s' % kw, max(c[3] for c in bad), limit),
-                                          fn=name, kind='fn', kw=bool(kw))
+                                          fn=name, kind='fn', kw=bool(kw), args=e['args'])
         if names:
             acc.sample([names[0], table[names[0]][0]['args'], 20])
     finally:
@@ -140,7 +144,7 @@ def t_ops(task):
             mp.prec = p
             for x in vals:
                 for name, f in (('neg', operator.neg), ('pos', operator.pos), ('abs', abs), ('mpf()', lambda v: mpf(v) if isinstance(v, mpf) else mpc(v)),
-                                ('mpc(x,x)', lambda v: mpc(v, v) if isinstance(v, mpf) else mpc(v.real, v.imag)), ('conj', lambda v: mp.conj(v)),
+                                ('mpc(x,x)', lambda v: mpc(v, v) if isinstance(v, mpf) else mpc(v.real, v.imag)),
                                 ('fneg', mp.fneg), ('fadd0', lambda v: mp.fadd(v, 0)), ('fmul1', lambda v: mp.fmul(v, 1)), ('fdiv1', lambda v: mp.fdiv(v, 1)),
                                 ('fsub0', lambda v: mp.fsub(v, 0)), ('fadd-prec', lambda v: mp.fadd(v, 1, prec=10)), ('sqrt', mp.sqrt), ('mpf(str)', lambda v: mpf('0.1')),
                                 ('mpf(tuple)', lambda v: mpf((12345678901234567890123, -70)) if isinstance(v, mpf) else None)):
